@@ -253,12 +253,20 @@ func (e *absEnv) strCall(name string, args []aval) (aval, bool) {
 	}
 	strT := types.Typ[types.String]
 	switch name {
-	case "path.Clean", "path/filepath.ToSlash", "strings.ToUpper", "strings.Title":
+	case "path.Clean", "path/filepath.ToSlash", "strings.ToUpper", "strings.Title", "path.Dir", "path.Base", "path.Ext", "path.IsAbs":
 		// concrete strings only: the real function
 		if a, ok := lit(0); ok && len(args) == 1 {
 			switch name {
 			case "path.Clean":
 				return astr(path.Clean(a)), true
+			case "path.Dir":
+				return astr(path.Dir(a)), true
+			case "path.Base":
+				return astr(path.Base(a)), true
+			case "path.Ext":
+				return astr(path.Ext(a)), true
+			case "path.IsAbs":
+				return abool(path.IsAbs(a)), true
 			case "path/filepath.ToSlash":
 				return astr(a), true // evaluated for a slash-separated platform
 			case "strings.ToUpper":
